@@ -31,6 +31,9 @@ def run(ctx):
     files = [gb2.gen_file(rng, (70000 if i % 10 == 0 else 4000) if ctx.quick else 200000, debug=(i % 7 == 3)) for i in range(n)]
     ctx.correspond([f"bf2.import 1 {hx(t.encode())}" for t, _ in files], "bf2.import")
     ctx.check_props([f"prop.c13 {hx(t.encode())} {spec_of(e)}" for t, e in files], "prop.c13")
+    # section boundaries without instruction lines, unknown protocols: model against code
+    ctx.correspond([f"bf2.import {rng.choice('01')} {hx(t.encode())}" for t in gb2.gen_variants(rng, 60 if ctx.quick else 3000)],
+                   "bf2.import-variants")
     # without the marker: rejected unless enforcement is off
     nom = [gb2.gen_file(rng, 3000, marker=False) for _ in range(10 if ctx.quick else 300)]
     ctx.correspond([f"bf2.import 1 {hx(t.encode())}" for t, _ in nom] + [f"bf2.import 0 {hx(t.encode())}" for t, _ in nom], "bf2.import-legacy")
